@@ -12,10 +12,12 @@ Model of what `gensquashfs --pack-file` does with the entries `handle_line` deco
 
 The tree is a value (`FNode`), a node's children are the list `data.children` in list order.  The entry's `name` is a
 path `canonicalize_name` has produced (that is all `handle_line` passes on), so cutting it at '/' (`pathOf`) is the
-component loop of `fstree_get_node_by_path`.  `ent->flags` is 0 on this path (`alloc_flex` zeroes it and nothing sets
-it — the `link` keyword included, defect D10 of C01), so the hard-link branches of `mknode` are not modelled.
-`inode_num`, `xattr_idx`, `inode_ref`, `next_by_type` are assigned later (`fstree_post_process`, the writer) and are
-not part of this model.  (Property C11 owns an independent model of the same functions for the directory scan.)
+component loop of `fstree_get_node_by_path`.  `ent->flags` is the keyword's `flags` column (since 99d70b1:
+SQFS_DIR_ENTRY_FLAG_HARD_LINK for `link`): such an entry becomes a `S_IFLNK | 0777` leaf flagged `FLAG_LINK_IS_HARD`
+whose target is the canonicalised path; resolving it (`fstree_post_process` → `fstree_resolve_hard_links`) happens
+after `fstree_from_file_stream` and is not part of this model (property C07 owns that).  `rdsquashfs --describe`
+never prints a `link` line, so nothing on the describe path is a hard link.
+`inode_num`, `xattr_idx`, `inode_ref`, `next_by_type` are assigned later and are not part of this model.  (Property C11 owns an independent model of the same functions for the directory scan.)
 -/
 import Sqfs.Model.Quote
 import Sqfs.Spec.Path
@@ -32,6 +34,7 @@ structure FAttr where
   mtime : Nat             -- `mod_time`
   linkCount : Nat
   implicit : Bool         -- `flags & FLAG_DIR_CREATED_IMPLICITLY`
+  hard : Bool := false    -- `flags & FLAG_LINK_IS_HARD`: an unresolved hard link, `extra` = canonical path of its target
   rdev : Nat              -- `data.devno` (S_IFBLK / S_IFCHR), 0 otherwise
   extra : Option Bytes    -- `data.target` (S_IFLNK) / `data.file.input_file` (S_IFREG), NULL otherwise
   deriving DecidableEq, Repr
@@ -67,6 +70,7 @@ inductive FsErr
   | notdir    -- ENOTDIR: a component of the path exists and is not a directory
   | exist     -- EEXIST: the entry exists (and is not an implicitly created directory being defined now)
   | mlink     -- EMLINK: the parent's link count is exhausted
+  | nametoolong  -- ENAMETOOLONG: a directory nested deeper than SQFS_MAX_DIR_NESTING
   deriving DecidableEq, Repr
 
 /-- `(mode & S_IFMT) == ty` -/
@@ -133,48 +137,103 @@ def overwrite (c : FNode) (e : Entry) (mtime : Nat) : Except FsErr FNode :=
     if !isType a.mode sIFDIR || !isType e.mode sIFDIR || !a.implicit then .error .exist
     else .ok (.mk n { a with uid := e.uid, gid := e.gid, mode := e.mode, mtime := mtime % 2^32, implicit := false } cs)
 
-/-- the new leaf `mknode` creates for the entry -/
+/-- the new leaf `mknode` creates for an entry that is not a hard link -/
 def leafOf (d : Defaults) (name : Bytes) (e : Entry) : FNode :=
   .mk name (mkAttr e.mode e.uid e.gid d.mtime e.rdev e.extra) []
+
+/-- `ent->flags & SQFS_DIR_ENTRY_FLAG_HARD_LINK` (set by the `link` keyword since 99d70b1) -/
+def isHard (e : Entry) : Bool := (e.flags &&& dirEntryFlagHardLink) != 0
+
+/-- the leaf `mknode` creates for a hard-link entry: `S_IFLNK | 0777`, `FLAG_LINK_IS_HARD`, target = the
+canonicalised `extra` (the link is resolved later, by `fstree_post_process`) -/
+def hardLeaf (d : Defaults) (name : Bytes) (e : Entry) (target : Option Bytes) : FNode :=
+  .mk name { mode := sIFLNK ||| 0o777, uid := e.uid, gid := e.gid, mtime := clampTime d.mtime, linkCount := 1, implicit := false,
+             hard := true, rdev := 0, extra := target } []
+
+/--
+`mknode` up to (not including) the `EMLINK` test, for a new child of a directory at depth `depth` (root = 0):
+the nesting limit for directories (`size = 1 + number of ancestors of the parent`), `canonicalize_name` on the
+target of a hard link (`EINVAL`), the type switch.
+-/
+def mknodeOf (d : Defaults) (depth : Nat) (name : Bytes) (e : Entry) : Except FsErr FNode :=
+  if isType e.mode sIFDIR && !isHard e && decide (depth + 1 > sqfsMaxDirNesting) then .error .nametoolong
+  else if isHard e then
+    match e.extra with
+    | none => .ok (hardLeaf d name e none)
+    | some x =>
+      match Sqfs.Path.canonicalize x with
+      | none => .error .inval
+      | some x' => .ok (hardLeaf d name e (some x'))
+  else .ok (leafOf d name e)
 
 /-- the directory `dir` with its child of that name updated in place -/
 def putChild (dir : FNode) (c' : FNode) : FNode := .mk dir.name dir.attr (replaceChild c' dir.children)
 
 /--
-`fstree_get_node_by_path(…, true, true)` + `child_by_name` + overwrite / `mknode`, along the components of the path.
-An implicitly created directory is a fresh childless node; the descent goes on inside it before it is linked into
-its parent, which gives the same tree (and the same error: only the linking can fail) as linking first.
+`fstree_get_node_by_path(…, true, true)` + `child_by_name` + overwrite / `mknode`, along the components of the path;
+`depth` is the depth of the directory the walk is in (root = 0).  An implicitly created directory is a fresh
+childless node; after the two tests `mknode` makes for it (nesting limit, `EMLINK`) the descent goes on inside it
+before it is linked into its parent, which gives the same tree as linking first.
 -/
-def addAt (d : Defaults) (e : Entry) : List Bytes → FNode → Except FsErr FNode
-  | [], root => overwrite root e d.mtime                       -- `ent->name[0] == '\0'`: child = fs->root
-  | [n], dir =>
+def addAt (d : Defaults) (e : Entry) : List Bytes → Nat → FNode → Except FsErr FNode
+  | [], _, root => overwrite root e d.mtime                       -- `ent->name[0] == '\0'`: child = fs->root
+  | [n], depth, dir =>
     if !dir.isDir then .error .notdir
     else match childByName dir.children n with
       | some c => (overwrite c e d.mtime).map (putChild dir)
-      | none => linkChild dir (leafOf d n e)
-  | n :: m :: rest, dir =>
+      | none => (mknodeOf d depth n e).bind (linkChild dir)
+  | n :: m :: rest, depth, dir =>
     if !dir.isDir then .error .notdir
     else match childByName dir.children n with
-      | some c => (addAt d e (m :: rest) c).map (putChild dir)
-      | none => (addAt d e (m :: rest) (implicitDir d n)).bind (linkChild dir)
+      | some c => (addAt d e (m :: rest) (depth + 1) c).map (putChild dir)
+      | none =>
+        if depth + 1 > sqfsMaxDirNesting then .error .nametoolong
+        else if dir.attr.linkCount = 0xFFFFFFFF then .error .mlink
+        else (addAt d e (m :: rest) (depth + 1) (implicitDir d n)).bind (linkChild dir)
+
+/--
+What a failing `fstree_add_generic` leaves behind: `fstree_get_node_by_path` links every directory it creates
+implicitly into the tree at once, so the ones created before the failure (a later one over the nesting limit, the
+entry's own `mknode` failing, …) stay.  Same walk as `addAt`, without the entry.
+-/
+def residue (d : Defaults) : List Bytes → Nat → FNode → FNode
+  | [], _, X => X
+  | [_], _, X => X
+  | n :: m :: rest, depth, dir =>
+    if !dir.isDir then dir
+    else match childByName dir.children n with
+      | some c => putChild dir (residue d (m :: rest) (depth + 1) c)
+      | none =>
+        if depth + 1 > sqfsMaxDirNesting then dir
+        else if dir.attr.linkCount = 0xFFFFFFFF then dir
+        else match linkChild dir (residue d (m :: rest) (depth + 1) (implicitDir d n)) with
+          | .ok t => t
+          | .error _ => dir
 
 /-- the components of a path `canonicalize_name` has produced -/
 def pathOf (name : Bytes) : List Bytes := if name = [] then [] else splitSlash name
 
-/-- `fstree_add_generic(fs, ent, extra)` with `ent->mtime = fs->defaults.mtime`, `ent->flags = 0` (as `handle_line`
-sets them) -/
+/-- `fstree_add_generic(fs, ent, extra)` with `ent->mtime = fs->defaults.mtime` (as `handle_line` sets it) -/
 def addEntry (d : Defaults) (e : Entry) (root : FNode) : Except FsErr FNode :=
   if isType e.mode sIFLNK && e.extra.isNone then .error .inval
   else if e.uid > 0xFFFFFFFF || e.gid > 0xFFFFFFFF then .error .range
-  else if (isType e.mode sIFBLK || isType e.mode sIFCHR) && e.rdev > 0xFFFFFFFF then .error .range
-  else addAt d e (pathOf e.name) root
+  else if (isType e.mode sIFBLK || isType e.mode sIFCHR) && !isHard e && e.rdev > 0xFFFFFFFF then .error .range
+  else addAt d e (pathOf e.name) 0 root
 
-/-- entries added one after the other; the first failure stops (the tree so far is returned with it) -/
+/-- the tree after a failing `fstree_add_generic`: untouched when one of the argument checks in front fired,
+otherwise with the implicitly created directories of the walk -/
+def afterFailure (d : Defaults) (e : Entry) (root : FNode) : FNode :=
+  if isType e.mode sIFLNK && e.extra.isNone then root
+  else if e.uid > 0xFFFFFFFF || e.gid > 0xFFFFFFFF then root
+  else if (isType e.mode sIFBLK || isType e.mode sIFCHR) && !isHard e && e.rdev > 0xFFFFFFFF then root
+  else residue d (pathOf e.name) 0 root
+
+/-- entries added one after the other; the first failure stops (the tree it leaves is returned with it) -/
 def addAll (d : Defaults) : List Entry → FNode → FNode × Option FsErr
   | [], t => (t, none)
   | e :: es, t =>
     match addEntry d e t with
-    | .error x => (t, some x)
+    | .error x => (afterFailure d e t, some x)
     | .ok t' => addAll d es t'
 
 inductive BuildErr
